@@ -6,6 +6,7 @@ mod binrun;
 mod engine;
 mod field;
 mod gen;
+mod interp;
 mod irmatch;
 mod obs;
 mod props;
@@ -48,7 +49,16 @@ fn main() {
                     println!("report {} {}", r.id(), r.message());
                 }
                 match obs::to_ssa(l.cfg) {
-                    Ok(ssa) => println!("--- SSA\n{ssa:?}"),
+                    Ok(ssa) => {
+                        println!("--- SSA\n{ssa:?}");
+                        for b in ssa.iter() {
+                            for st in b.statements() {
+                                props::semcase::walk_ir_exprs(st, &mut |e| {
+                                    println!("  deg {:?} val {:?} :: {:?}", e.meta().degree_knowledge().degree(), e.meta().value_knowledge().get_reduces_to(), e);
+                                });
+                            }
+                        }
+                    }
                     Err(obs::SsaFail::Error(r)) => println!("SSA error: {}", r.message()),
                     Err(obs::SsaFail::Panic(p)) => println!("SSA panic: {p}"),
                 }
